@@ -526,7 +526,7 @@ void *cdef_kernel(void *input_ptr) {
 
                 if (scs_ptr->seq_header.enable_restoration != 0 ||
                     pcs_ptr->parent_pcs_ptr->is_used_as_reference_flag ||
-                    scs_ptr->static_config.recon_enabled) {
+                    scs_ptr->static_config.recon_enabled || scs_ptr->static_config.stat_report) {
                     if (scs_ptr->static_config.is_16bit_pipeline || is_16bit)
                         av1_cdef_frame16bit(0, scs_ptr, pcs_ptr);
                     else
